@@ -265,6 +265,12 @@ func TestDrv_C01(t *testing.T) {
 			loops = append(loops, pl)
 		}
 	}
+	// phases written outside [0, 2pi): the same waves as their reductions (the trough as -pi/2, a peak three turns on)
+	for _, off := range []float64{-math.Pi / 2, -math.Pi / 3, -7.5, 2*math.Pi + 1, 6*math.Pi + math.Pi/2, -4 * math.Pi} {
+		pl := sineLoop([]time.Duration{time.Second, time.Minute}[r.Intn(2)], 100, 80, off)
+		pl.always = true
+		loops = append(loops, pl)
+	}
 	// mean and amplitude given in different time units
 	for _, ma := range []struct {
 		mean   int
